@@ -149,3 +149,155 @@ Proof.
   rewrite E1, E2. apply Permutation_flat_map. exact Pk.
 Qed.
 End It.
+
+(** ** what the sessions wrote *)
+Section Wr.
+Variable eps : nat.
+Hypothesis Heps : (1 <= eps)%nat.
+
+(** the stored example lists of the shards one filler closes for split [s], when the payload offset is [b] *)
+Definition wrote_filler (b : nat) (ops : list wop) (s : split) : list nat :=
+  flat_map (stored b) (closed_of s (session_closed eps ops)).
+Fixpoint wrote_multi (b : nat) (ws : list (list wop)) (s : split) : list nat :=
+  match ws with [] => [] | ops :: t => wrote_filler b ops s ++ wrote_multi (b + 100) t s end.
+Definition wrote_session (b : nat) (x : session) (s : split) : list nat * nat :=
+  match x with SFiller _ ops => (wrote_filler b ops s, (b + 100)%nat) | SMulti ws => (wrote_multi b ws s, (b + 100 * length ws)%nat) end.
+Fixpoint wrote_history (b : nat) (h : list session) (s : split) : list nat :=
+  match h with [] => [] | x :: t => fst (wrote_session b x s) ++ wrote_history (snd (wrote_session b x s)) t s end.
+
+Definition stored_under (fs : fsT) (c : nat) : list nat := flat_map (fun e => fst (snd e)) (filter (under c) (shards fs)).
+
+Lemma stored_under_cons fs fs' k v c : shards fs' = (k, v) :: shards fs ->
+  stored_under fs' c = (if under c (k, v) then fst v else []) ++ stored_under fs c.
+Proof. intros E. unfold stored_under. rewrite E. cbn [filter]. destruct (under c (k, v)); reflexivity. Qed.
+
+Lemma filler_stored fs sub ops s : WFunder fs [] -> FreshOK fs ->
+  Permutation (stored_under (fst (filler_session fs sub eps ops)) (split_code s)) (wrote_filler (base fs) ops s ++ stored_under fs (split_code s))
+  /\ base (fst (filler_session fs sub eps ops)) = (base fs + 100)%nat.
+Proof.
+  intros Hwf Hfr. split; [|apply (filler_base eps)]. unfold filler_session. cbv zeta. unfold wrote_filler, session_closed.
+  set (st := run_ops eps ops). set (closes := f_closed st ++ exit_closes st).
+  assert (A : forall cl fsa, let fsb := fold_left (fun fs0 c => add_shard fs0 (split_code (fst c) :: sub) (snd c) (f_heap st)) cl fsa in
+     base fsb = base fsa /\ Permutation (stored_under fsb (split_code s)) (flat_map (stored (base fsa)) (closed_of s cl) ++ stored_under fsa (split_code s))).
+  { induction cl as [|c t IH]; intros fsa; cbn [fold_left]; [split; [reflexivity | apply Permutation_refl]|].
+    destruct (IH (add_shard fsa (split_code (fst c) :: sub) (snd c) (f_heap st))) as [B P]. cbv zeta in *.
+    split; [rewrite B; reflexivity|]. eapply Permutation_trans; [exact P|].
+    rewrite (stored_under_cons fsa _ _ _ (split_code s) (add_shard_shards fsa (split_code (fst c) :: sub) (snd c) (f_heap st))).
+    replace (base (add_shard fsa (split_code (fst c) :: sub) (snd c) (f_heap st))) with (base fsa) by reflexivity.
+    unfold closed_of. cbn [filter]. unfold under. cbn [fst snd].
+    destruct (split_eqb_spec (fst c) s) as [E|E].
+    - rewrite E, Nat.eqb_refl. cbn [map flat_map]. rewrite <- app_assoc. apply Permutation_app_swap_app.
+    - destruct (Nat.eqb_spec (split_code (fst c)) (split_code s)) as [E2|E2]; [exfalso; apply E; destruct (fst c), s; cbn in E2; congruence|]. cbn [app]. apply Permutation_refl. }
+  destruct (A closes fs) as [B1 P1]. cbv zeta in *. set (fs1 := fold_left _ closes fs) in *.
+  assert (Bq : forall tl fsa acc, shards (fst (fold_left (fun (a : fsT * list list_info) (c : nat) => let (fs2, li) := write_list (fst a) (load_or_create (fst a) (c :: sub)) in (fs2, snd a ++ [li])) tl (fsa, acc))) = shards fsa).
+  { induction tl as [|c t IH]; intros fsa acc; cbn [fold_left fst snd]; [reflexivity|].
+    pose proof (rewrite_shards fsa (c :: sub)) as E. destruct (write_list fsa (load_or_create fsa (c :: sub))) as [fs2 li]. cbn [fst] in *. rewrite IH. exact E. }
+  specialize (Bq (touched closes []) fs1 []). destruct (fold_left _ (touched closes []) (fs1, [])) as [fs3 ups]. cbn [fst] in *.
+  unfold stored_under at 1. cbn [shards]. rewrite Bq. exact P1.
+Qed.
+End Wr.
+
+Lemma merge_base : forall fuel U c fs fs' li, merge fuel U c fs = Ok (fs', li) -> base fs' = base fs.
+Proof.
+  induction fuel as [|f IH]; intros U c fs fs' li Hm; [discriminate|].
+  rewrite merge_S in Hm. destruct U as [|u0 U']; [discriminate|].
+  destruct (negb (forallb _ _)); [discriminate|]. cbv zeta in Hm.
+  destruct (negb (Nat.eqb _ _)); [discriminate|]. destruct (merge_asserts_single_update && _)%bool; [discriminate|].
+  destruct (fold_left (Fstep f c) _ _) as [[fs3 merged]|e] eqn:Ef; [|discriminate].
+  injection Hm as <- _. cbn [write_list fst base].
+  assert (G : forall gs fsa done fsb m, fold_left (Fstep f c) gs (Ok (fsa, done)) = Ok (fsb, m) -> base fsb = base fsa).
+  { induction gs as [|g gs IHg]; intros fsa done fsb m E; cbn [fold_left] in E.
+    - injection E as <- _. reflexivity.
+    - unfold Fstep at 2 in E. destruct (merge f (snd g) (S c) fsa) as [[fs2 info]|e] eqn:Em; [|rewrite fold_err in E; discriminate].
+      rewrite (IHg _ _ _ _ E). apply (IH _ _ _ _ _ Em). }
+  apply (G _ _ _ _ _ Ef).
+Qed.
+
+Lemma wc_base : forall gs fs1 i1 fs' info', fold_left WCstep gs (Ok (fs1, i1)) = Ok (fs', info') -> base fs' = base fs1.
+Proof.
+  induction gs as [|g gs IH]; intros fs1 i1 fs' info' Hf; cbn [fold_left] in Hf; [injection Hf as <- _; reflexivity|].
+  unfold WCstep at 2 in Hf. destruct (merge FUEL (snd g) 1 fs1) as [[fs2 li]|e] eqn:Em; [|rewrite wc_err in Hf; discriminate].
+  rewrite (IH _ _ _ _ Hf). apply (merge_base _ _ _ _ _ _ Em).
+Qed.
+
+Section Wr2.
+Variable eps : nat.
+Hypothesis Heps : (1 <= eps)%nat.
+
+Lemma session_stored st x st' s : Inv st -> run_session eps st x = Ok st' ->
+  Permutation (stored_under (fst st') (split_code s)) (fst (wrote_session eps (base (fst st)) x s) ++ stored_under (fst st) (split_code s))
+  /\ base (fst st') = snd (wrote_session eps (base (fst st)) x s).
+Proof.
+  intros (Hwf & Hfr & _) Hr. destruct st as [fs info]. cbn [fst snd] in *. unfold run_session in Hr.
+  assert (Fin : forall fs1 ups, WFunder fs1 [] -> (forall u, List.In u ups -> (1 <= length (li_dir u))%nat) ->
+     match ups with [] => Ok (fs1, info) | _ => write_config fs1 info ups end = Ok st' -> shards (fst st') = shards fs1 /\ base (fst st') = base fs1).
+  { intros fs1 ups W1 L Hq. destruct ups as [|u0 ups']; [injection Hq as <-; split; reflexivity|].
+    destruct st' as [fs' info']. unfold write_config, group_split in Hq. fold WCstep in Hq. cbn [fst]. split.
+    - apply (wc_fold_same_files (group_by 0 (u0 :: ups')) fs1 info fs' info'); [apply group_by_ok; apply Forall_forall; exact L | exact W1 | exact Hq].
+    - apply (wc_base _ _ _ _ _ Hq). }
+  destruct x as [sub ops | writers]; cbn [wrote_session fst snd].
+  - destruct (filler_stored eps fs sub ops s Hwf Hfr) as [P B].
+    destruct (filler_phase eps Heps fs sub ops Hwf Hfr) as (W1 & _ & _ & _ & L1 & _).
+    destruct (filler_session fs sub eps ops) as [fs1 ups]. cbn [fst snd] in *.
+    destruct (Fin fs1 ups W1 L1 Hr) as [Es Eb]. unfold stored_under at 1. rewrite Es. fold (stored_under fs1 (split_code s)). rewrite Eb. auto.
+  - set (fsm := {| lists := lists fs; shards := shards fs; ver := ver fs; fresh := (fresh fs + length writers)%nat; base := base fs |}) in *.
+    assert (Wm : WFunder fsm []) by (intros d s0 h0 Hp E; apply (WFdoc_shards fs fsm); [reflexivity | exact (Hwf d s0 h0 Hp E)]).
+    assert (Fm : FreshOK fsm) by (intros d n v E; cbn [fresh fsm]; pose proof (Hfr d n v E); lia).
+    assert (M : forall ws fsa us k, WFunder fsa [] -> FreshOK fsa ->
+      let r := fold_left (fun (acc : fsT * list list_info * nat) (ops : list wop) =>
+            let '(fsx, usx, kx) := acc in let (fsy, u) := filler_session fsx [kx] eps ops in (fsy, usx ++ u, S kx)) ws (fsa, us, k) in
+      Permutation (stored_under (fst (fst r)) (split_code s)) (wrote_multi eps (base fsa) ws s ++ stored_under fsa (split_code s)) /\
+      base (fst (fst r)) = (base fsa + 100 * length ws)%nat).
+    { induction ws as [|ops t IH]; intros fsa us k W F; cbn [fold_left fst snd wrote_multi length]; [split; [apply Permutation_refl | lia]|].
+      destruct (filler_stored eps fsa [k] ops s W F) as [P1 B1].
+      destruct (filler_phase eps Heps fsa [k] ops W F) as (W1 & F1 & _).
+      destruct (filler_session fsa [k] eps ops) as [fsb u1]. cbn [fst snd] in *.
+      destruct (IH fsb (us ++ u1) (S k) W1 F1) as [P2 B2]. cbv zeta in *. split; [|rewrite B2, B1; lia].
+      eapply Permutation_trans; [exact P2|]. rewrite B1. rewrite <- app_assoc.
+      eapply Permutation_trans; [apply Permutation_app_head; exact P1|]. rewrite !app_assoc. apply Permutation_app_tail. apply Permutation_app_comm. }
+    destruct (M writers fsm [] (fresh fs) Wm Fm) as [P B]. cbv zeta in *.
+    destruct (multi_phase eps Heps writers fsm (fresh fs) Wm Fm) as (W1 & _ & _ & _ & L1 & _). cbv zeta in *.
+    destruct (fold_left _ writers (fsm, [], fresh fs)) as [[fs1 ups] kk]. cbn [fst snd] in *.
+    destruct (Fin fs1 ups W1 L1 Hr) as [Es Eb]. unfold stored_under at 1. rewrite Es. fold (stored_under fs1 (split_code s)). rewrite Eb. split; [exact P | exact B].
+Qed.
+
+Lemma history_stored_is_written : forall h st st' s, Inv st ->
+  fold_left (fun acc x => match acc with Err e => Err e | Ok st0 => run_session eps st0 x end) h (Ok st) = Ok st' ->
+  Permutation (stored_under (fst st') (split_code s)) (wrote_history eps (base (fst st)) h s ++ stored_under (fst st) (split_code s)).
+Proof.
+  induction h as [|x t IH]; intros st st' s HI Hf; cbn [fold_left wrote_history] in *; [injection Hf as <-; apply Permutation_refl|].
+  destruct (run_session eps st x) as [st1|e] eqn:Er; [|exfalso; clear -Hf; induction t as [|y t IHt]; cbn [fold_left] in Hf; [discriminate | auto]].
+  destruct (session_stored st x st1 s HI Er) as [P1 B1].
+  pose proof (IH st1 st' s (run_session_inv eps Heps st x st1 HI Er) Hf) as P2. rewrite B1 in P2.
+  eapply Permutation_trans; [exact P2|]. rewrite <- app_assoc.
+  eapply Permutation_trans; [apply Permutation_app_head; exact P1|]. rewrite !app_assoc. apply Permutation_app_tail. apply Permutation_app_comm.
+Qed.
+
+(** C02 / C08 in one sentence, for every history of the session model: unshuffled iteration of a split yields exactly the examples
+    the sessions stored for it — every shard every session closed for that split, each once (payload offsets identify the session). *)
+Theorem history_iterate_is_written h fs info : run_history eps h = Ok (fs, info) ->
+  forall s, Permutation (iterate fs info (split_code s)) (wrote_history eps 0 h s).
+Proof.
+  intros Hr s. pose proof (history_stored_is_written h (fs0, []) (fs, info) s HistoryProofs.inv_init Hr) as P. cbn [fst base fs0] in P.
+  unfold stored_under at 2 in P. cbn [shards fs0 filter flat_map] in P. rewrite app_nil_r in P.
+  eapply Permutation_trans; [|exact P].
+  destruct (dget info (split_code s)) as [li|] eqn:Eg; [apply (history_iterate_is_stored eps Heps h fs info Hr (split_code s) li Eg)|].
+  (* a split the description does not know holds nothing *)
+  unfold iterate. rewrite Eg. unfold stored_under.
+  pose proof (history_keys eps Heps h (fs, info) Hr) as HK. cbn [fst] in HK.
+  assert (E : filter (under (split_code s)) (shards fs) = []).
+  { destruct (filter (under (split_code s)) (shards fs)) as [|[[d n] v] t] eqn:Ef; [reflexivity|]. exfalso.
+    assert (Hin : List.In ((d, n), v) (filter (under (split_code s)) (shards fs))) by (rewrite Ef; left; reflexivity).
+    apply filter_In in Hin as [Hin Hu]. unfold under in Hu. cbn [fst] in Hu. destruct d as [|x d']; [discriminate|]. apply Nat.eqb_eq in Hu. subst x.
+    destruct (history_all_shards_listed eps Heps h fs info Hr (split_code s) d' n v (lookup_shard_of_in _ _ _ _ HK Hin)) as (li & _ & Hg & _). congruence. }
+  rewrite E. apply Permutation_refl.
+Qed.
+End Wr2.
+
+Require Import Sedpack.Proofs.FillerExact.
+(** what one filler stores for a split is exactly its accepted writes to that split, in caller order (C03), plus the payload offset *)
+Lemma wrote_filler_accepted eps : (1 <= eps)%nat -> forall b ops s, wrote_filler eps b ops s = map (Nat.add b) (accepted s ops 0).
+Proof.
+  intros Heps b ops s. rewrite <- (filler_exact_lemma eps Heps ops s). unfold wrote_filler, recorded, stored.
+  induction (closed_of s (session_closed eps ops)) as [|sh t IH]; cbn [flat_map map]; [reflexivity|]. rewrite map_app, IH. reflexivity.
+Qed.
